@@ -16,12 +16,14 @@ for kind, want in (('seeded', 1), ('refactors', 0)):
         if kind == 'seeded' and str(m.get('check_result', '')).startswith('missed-by'):
             w = 0
         spec = '%s quick %d %s' % (prop, 0 if kind == 'seeded' else 1, p)
+        if m.get('pinned_to_repository_commit'):
+            spec += ' ' + m['pinned_to_repository_commit']
         jobs.append(spec)
         expect[spec] = w
 r = subprocess.run([os.path.join(here, 'tools', 'farm.py'), '--setup'] + sys.argv[1:], input='\n'.join(jobs) + '\n', capture_output=True, text=True)
 bad = 0
 for line in r.stdout.splitlines():
-    m = re.match(r'(.*patch\.diff): (exit (\d+)|PATCH)', line)
+    m = re.match(r'(.*patch\.diff(?: \w+)?): (exit (\d+)|PATCH)', line)
     if m:
         got = int(m.group(3)) if m.group(3) else -1
         if got != expect.get(m.group(1)):
